@@ -232,16 +232,38 @@ def run_fuzz_phase(prop, tier, seed, work, newrep):
             for fi in range(len(fams)):
                 with open(os.path.join(corpus, "seed-%d" % fi), "wb") as fh:
                     fh.write(bytes([fi]) + bytes(rng.randrange(256) for _ in range(48)))
-        stats = os.path.join(d, "stats.json")
-        env = dict(os.environ, VFUZZ_FAMILIES=",".join(fams), VFUZZ_STATS=stats, **FUZZ_ENV)
-        r = sh([exe, "-seed=%d" % (seed * 1000 + w + 1), "-runs=%d" % fj["runs"], "-max_len=%d" % fj["max_len"], "-timeout=20", "-rss_limit_mb=3000",
-                "-print_final_stats=1", "-artifact_prefix=" + d + "/", corpus], env=env)
-        st = {}
-        if os.path.exists(stats):
-            try:
-                st = json.load(open(stats))
-            except Exception:
-                st = {}
+        # at most 10^6 runs per libFuzzer process: the corpus directory carries the state over, memory (ASan quarantine,
+        # retired nodes, libFuzzer's own tables) stays bounded
+        st = {"families": {}, "labels": {}}
+        left, chunk, rc_all, out_all = fj["runs"], 0, 0, ""
+        while left > 0:
+            n = min(left, 1000000)
+            stats = os.path.join(d, "stats-%d.json" % chunk)
+            env = dict(os.environ, VFUZZ_FAMILIES=",".join(fams), VFUZZ_STATS=stats, **FUZZ_ENV)
+            r = sh([exe, "-seed=%d" % (seed * 1000 + w + 1 + 100 * chunk), "-runs=%d" % n, "-max_len=%d" % fj["max_len"], "-timeout=20", "-rss_limit_mb=4000",
+                    "-print_final_stats=1", "-artifact_prefix=" + d + "/", corpus], env=env)
+            rc_all = rc_all or r.returncode
+            out_all += r.stdout[-4000:]
+            if os.path.exists(stats):
+                try:
+                    one = json.load(open(stats))
+                    for k, v in one.get("families", {}).items():
+                        a = st["families"].setdefault(k, [0, 0, 0])
+                        for i in range(3):
+                            a[i] += v[i]
+                    for k, v in one.get("labels", {}).items():
+                        st["labels"][k] = st["labels"].get(k, 0) + v
+                except Exception:
+                    pass
+            left -= n
+            chunk += 1
+            if r.returncode != 0:
+                break
+
+        class R:
+            pass
+        r = R()
+        r.returncode, r.stdout = rc_all, out_all
         arts = sorted(glob.glob(os.path.join(d, "crash-*")))  # only crash artifacts count; slow-unit / oom / timeout are load noise
         return w, r.returncode, r.stdout, st, arts, corpus
 
@@ -261,12 +283,11 @@ def run_fuzz_phase(prop, tier, seed, work, newrep):
                 a[i] += v[i]
         for k, v in st.get("labels", {}).items():
             labels[k] = labels.get(k, 0) + v
-        m = re.search(r"stat::number_of_executed_units: (\d+)", out)
-        execs += int(m.group(1)) if m else 0
+        execs += sum(int(x) for x in re.findall(r"stat::number_of_executed_units: (\d+)", out))
         units = sorted(glob.glob(os.path.join(corpus, "*")), key=lambda p: -os.path.getsize(p))
         corpus_units += len(units)
         if w == 0:
-            for u in units[:40:20]:
+            for u in ([units[len(units) // 3], units[(2 * len(units)) // 3]] if len(units) >= 3 else units[:1]):
                 rc2, dump = fuzz_run_input(exe, fams, u, dump=True)
                 lines = [l for l in dump.splitlines() if not l.startswith(("INFO:", "Running", "Executed", "***", "./", "/"))]
                 samples.append({"engine": "vfuzz", "input_bytes": os.path.getsize(u), "decoded": lines[:40]})
